@@ -64,8 +64,15 @@ def SB(x):
     return "b:" + hx(bytes(x))
 
 
+def show_leaf(v):
+    """a decoded value is a `bytes` object of its own; anything else (a bytearray, a view of the input buffer)
+    is rendered with its type, which the model never produces"""
+    h = bytes(v).hex().upper()
+    return h if type(v) is bytes else f"<{type(v).__name__}>{h}"
+
+
 def show_tree(d):
-    return "{" + ",".join(k + ":" + (show_tree(v) if hasattr(v, "items") else bytes(v).hex().upper())
+    return "{" + ",".join(k + ":" + (show_tree(v) if hasattr(v, "items") else show_leaf(v))
                           for k, v in d.items()) + "}"
 
 
@@ -151,6 +158,8 @@ def canon(f):
         return "okstr " + str(r)
     if isinstance(r, (bytes, bytearray)):
         return "ok " + hx(r)
+    if isinstance(r, memoryview):                         # e.g. aligned data handed back unchanged by the padding helpers
+        return "ok " + hx(r.tobytes())
     return "other " + type(r).__name__
 
 
@@ -288,7 +297,9 @@ class Ctx:
         """case count for the tier; in the thorough tier generated-stream counts (>= 100) are multiplied by
         VERIF_THOROUGH_SCALE (default 5), grid parameters (small numbers) are left alone"""
         if getattr(self, "boost", False) and not self.thorough:
-            return max(quick, thorough)                  # directed search after a broken proof obligation
+            # directed search after a broken proof obligation: the generated streams at the thorough tier's counts;
+            # enumeration bounds and grid parameters (small numbers) stay as they are
+            return max(quick, thorough) if thorough >= 100 else quick
         if not self.thorough:
             return quick
         if thorough >= 100:
